@@ -26,12 +26,13 @@ class InvCtx:
 
 class Inv:
     def __init__(s, name, qf=None, foralls=(), conts=(), dicts=(), fields=(), vars=(), var_types=None, setup=None,
-                 ghost_havoc=None, axioms=(), defs=None):
+                 ghost_havoc=None, axioms=(), defs=None, steps=()):
         s.name, s.qf, s.foralls, s.conts, s.dicts, s.fields, s.vars = name, qf, list(foralls), list(conts), list(dicts), list(fields), list(vars)
         s.var_types = var_types or {}
         s.setup = setup            # fn(ctx) run once at loop entry (may record ghost values in ctx.extra)
         s.ghost_havoc = ghost_havoc  # fn(ctx) -> None: havoc ghost state carried in p.ghost
         s.axioms = list(axioms)
+        s.steps = list(steps)      # [(name, fn(ctx) -> Bool|None)]: transition clauses checked at the end of each iteration
         s.defs = defs              # fn(ctx) -> Bool: defining instances of ghost spec functions, ASSUMED at the loop head
 
 
@@ -144,6 +145,8 @@ class StmtMixin(CallMixin):
                 e = p1.new_obj(v.get("cls"))
                 v = SV(e, ty=v.get("cls"))
             p1.note(f"raise {v.get('ty') or 'value'} @ line {n.lineno}")
+            if not any(v.t.eq(x) for x in p1.ghost.get("raised", ())):
+                p1.ghost["raised"] = p1.ghost.get("raised", ()) + (v.t,)
             v.st.setdefault("site", f"raise@{s.site_label(n)}")
             return [Out("raise", p1, v)]
         return s.lift(s.ev(n.exc, p), k)
@@ -487,8 +490,9 @@ class StmtMixin(CallMixin):
             kindt = target[0]
             addr = Val.a(target[-1])
             if kindt == "field":
-                listed = [Val.a(t) for (nm, t) in fr["fields"] if nm == target[1]] + \
-                         [Val.a(t) for (nm, t) in fr["fields"] if nm == "*"]
+                if any(nm == target[1] and t is None for (nm, t) in fr["fields"]):
+                    continue
+                listed = [Val.a(t) for (nm, t) in fr["fields"] if nm == target[1] and t is not None]
             elif kindt == "dict":
                 listed = [Val.a(t) for t in fr["dicts"]]
             else:
@@ -536,15 +540,17 @@ class StmtMixin(CallMixin):
         p.bump_alloc()
         conts = [s._resolve(p, c) for c in inv.conts]
         dicts = [s._resolve(p, c) for c in inv.dicts]
-        fields = [(nm, s._resolve(p, c)) for nm, c in inv.fields]
+        fields = [(nm, (None if c is None else s._resolve(p, c))) for nm, c in inv.fields]
         for c in conts:
             p.havoc_seq(c)
         for d in dicts:
             p.havoc_dict(d)
         for nm, o in fields:
-            if nm == "*":
-                raise Unsupported("wildcard field havoc")
-            p.havoc_field(o, nm)
+            if o is None:
+                # the field may change on ANY object: havoc the whole field array
+                p.h.fields[nm] = z3.Array(f"hvF_{nm}!{next(_hv)}", z3.IntSort(), Val)
+            else:
+                p.havoc_field(o, nm)
         for nm in s.assigned_names(body) + list(inv.vars):
             if nm.startswith("$"):
                 continue
@@ -571,6 +577,11 @@ class StmtMixin(CallMixin):
         ctx = InvCtx(s, p, H0, env0, **ctx_kwargs)
         if inv.qf is not None:
             s.oblig(f"{inv.name}.{stage}", "inv", p, inv.qf(ctx), axioms=(inv.axioms or None))
+        if stage == "preserved":
+            for sname, sfn in inv.steps:
+                g = sfn(ctx)
+                if g is not None:
+                    s.oblig(sname, "clause", p, g)
         for i, (label, fn) in enumerate(inv.foralls):
             c = p.clone()
             j0 = fresh_int("jsk")
@@ -607,6 +618,7 @@ class StmtMixin(CallMixin):
             return s.unroll_while(n, p, bound, key)
         H0, env0, frame = s.open_cut(inv, key, p, n.body + n.orelse, {})
         s.assume_inv(inv, p, H0, env0, {})
+        p.ghost["head:" + key] = (p.snap(), dict(p.env))
         p.frames = p.frames + [frame]
         st = source.static_test(n.test, s.cfg)
         def k(p1, c):
@@ -621,6 +633,7 @@ class StmtMixin(CallMixin):
                     elif o.kind == "break":
                         o.path.frames = o.path.frames[:-1]
                         o.path.note(f"{key}:break")
+                        o.path.ghost["exit:" + key] = (o.path.snap(), dict(o.path.env))
                         res.append(Out("normal", o.path))
                     else:
                         o.path.frames = o.path.frames[:-1]
@@ -628,6 +641,7 @@ class StmtMixin(CallMixin):
             if f is not None:
                 f.frames = f.frames[:-1]
                 f.note(f"{key}:exit")
+                f.ghost["exit:" + key] = (f.snap(), dict(f.env))
                 res += s.block(n.orelse, f) if n.orelse else [Out("normal", f)]
             return res
         if isinstance(n.test, ast.Constant) and n.test.value is True:
@@ -702,9 +716,9 @@ class StmtMixin(CallMixin):
 
     def for_over(s, n, p, it, inv, key):
         nn, elem, static = s.iter_desc(p, it, n)
+        if static is not None and len(static) <= 8:
+            return s.unroll_for(n, p, static)
         if inv is None:
-            if static is not None and len(static) <= 8:
-                return s.unroll_for(n, p, static)
             raise Unsupported(f"loop {s.func_stack[-1].name}:{key} has no invariant")
         kw = dict(k=IntVal(0), seq=it)
         H0, env0, frame = s.open_cut(inv, key, p, [n], kw)
@@ -712,6 +726,7 @@ class StmtMixin(CallMixin):
         p.pc += [kk >= 0, kk <= nn, nn >= 0]
         kw = dict(k=kk, seq=it)
         s.assume_inv(inv, p, H0, env0, kw)
+        p.ghost["head:" + key] = (p.snap(), dict(p.env))
         p.frames = p.frames + [frame]
         more, done = s.fork(p, kk < nn)
         res = []
@@ -762,6 +777,10 @@ class StmtMixin(CallMixin):
         for q in live:
             outs += s.block(n.orelse, q) if n.orelse else [Out("normal", q)]
         return outs
+
+
+import itertools as _it
+_hv = _it.count()
 
 
 def _as_load(t):
